@@ -613,7 +613,8 @@ func fix128BigIntToUFix64(
 		panic(&UnderflowError{})
 	}
 
-	bigInt = bigInt.Div(bigInt, fixedpoint.Fix64ToFix128FactorAsBigInt)
+	// Truncate toward zero, instead of rounding toward negative infinity.
+	bigInt = bigInt.Quo(bigInt, fixedpoint.Fix64ToFix128FactorAsBigInt)
 
 	return NewUFix64Value(
 		memoryGauge,
